@@ -33,7 +33,7 @@ SHARDS = 2
 RULE = (
     "(A) messages = all messages emitted by 6 real programs (incl. failure reports) + synthetic "
     "messages over 22 field values x 6 timestamps x 3 levels, x 2 formatters; (B) all sequences of <= L "
-    "lines over a 13-line alphabet x 2 formatters through _main(); (C) filter expressions {J, SKIP-if-"
+    "lines over an 18-line alphabet (incl. a line with a UTF-8 signature, integers beyond 64 bits, NaN/Infinity tokens) x 2 formatters through _main(); (A2) all ordered pairs (thorough: triples) of messages over 14 values that are equal without being the same JSON value (1, 1.0, True, 0.0, -0.0, False, ...), formatted one after the other in one process; (C) filter expressions {J, SKIP-if-"
     "type, J['task_uuid'], datetime projection, J.get('value') (null results)} over the message pool in blocks; non-trivial = every "
     "case except the single-field default message"
 )
